@@ -345,7 +345,11 @@ pub fn cmd_run_c09(tier_name: &str) -> ExitCode {
         return ExitCode::from(2);
     }
     let hours = (b.wall_s / 3600.0).max(1e-9);
-    let samples: Vec<Value> = if violations == 1 { vec![b.violation.clone().unwrap()] } else { b.samples.clone() };
+    let samples: Vec<Value> = match (violations, &b.violation) {
+        (1, Some(v)) => vec![v.clone()],
+        (1, None) => vec![concurrent.clone()],
+        _ => b.samples.clone(),
+    };
     let ev = json!({
         "property_id": "C09",
         "tier": tier,
